@@ -48,6 +48,8 @@ CONSTANTS Toks,      \* primary-key tokens used
           Srcs,      \* subset of {"unsorted","asc","desc","sortasc","sortdesc"}
           Modes,     \* subset of {"direct","partials"}
           B2s,       \* sorted partials: batch sizes of the merged stream fed to the partials-in aggregator
+          MaxRowsP,  \* partials cases have at most this many rows
+          CaseFile,  \* "" = enumerate every case within the bounds above; else an ndjson file of cases to run (all behaviours of each)
           Emit       \* TRUE: print one JSON line per finished behaviour
 
 INF  == 99
@@ -204,8 +206,11 @@ FreshAgg(batches) ==
   /\ table = {} /\ maxT = NONE /\ maxS = NONE /\ runs = << >> /\ spilled = FALSE /\ lastP = NONE
   /\ out = << >>
 
+\* cases chosen by the harness (seeded random, larger than the exhaustive bounds)
+GivenCases == IF CaseFile = "" THEN {} ELSE LET f == ndJsonDeserialize(CaseFile) IN {f[i] : i \in 1..Len(f)}
+
 Init ==
-  /\ cs \in {c \in Seeds : ValidSeed(c)}
+  /\ cs \in (IF CaseFile = "" THEN {c \in Seeds : ValidSeed(c)} ELSE GivenCases)
   /\ stage = "build"
   /\ FreshAgg(<< >>)
   /\ legout = << << >>, << >> >> /\ legref = << << >>, << >> >>
@@ -214,7 +219,8 @@ Init ==
 \* build the case: append one input row (keeping a pool-ordered input ordered
 \* on the primary key) and decide whether it starts a new batch
 AddRow ==
-  /\ stage = "build" /\ Len(cs.keys) < MaxRows
+  /\ stage = "build" /\ CaseFile = ""
+  /\ Len(cs.keys) < (IF cs.mode = "partials" THEN MaxRowsP ELSE MaxRows)
   /\ \E k \in KeySet, nb \in BOOLEAN :
        /\ Sorted(cs.src) /\ cs.keys # << >> => SCmp(cs.keys[Len(cs.keys)][1], k[1], DescOf(cs)) <= 0
        /\ cs.keys = << >> => nb
